@@ -45,7 +45,8 @@ func execRecord(c RecordCase) (v ev.Verdict) {
 	m := sim.M
 	live := m.Live()
 	top := live[len(live)-1]
-	if r := sim.Build(projsim.BuildReq{Label: m.Label(top)}); !r.OK() {
+	r0 := sim.Build(projsim.BuildReq{Label: m.Label(top), PathsFor: m.AllLabels()})
+	if !r0.OK() {
 		return ev.Verdict{Skip: "initial-build-failed"}
 	}
 	cl := m.Closure(top)
@@ -62,7 +63,11 @@ func execRecord(c RecordCase) (v ev.Verdict) {
 			c.Source = false
 		}
 	}
-	rp := filepath.Join(sim.Env.Root(), ".dawn", "build", filepath.FromSlash(projsim.RecordPath(label)))
+	rel, known := r0.RecordPaths[label]
+	if !known {
+		return ev.Verdict{Skip: "no-record"}
+	}
+	rp := filepath.Join(sim.Env.Root(), ".dawn", "build", filepath.FromSlash(rel))
 	data, err := os.ReadFile(rp)
 	if err != nil {
 		return ev.Verdict{Skip: "no-record"}
